@@ -26,10 +26,15 @@ import warnings
 import attr
 import attrs
 
+import c11_ir
 import common
 
 ID = "C11"
-RULE = ("cases = heap (1..5 nodes quick / ..6 thorough: attrs instances of 1..3 classes, lists, tuples, dicts, atoms; "
+RULE = ("T3 (both tiers): one `script` case per generated class -- the real source text of the `__repr__` its instances run, "
+        "parsed into the IR of Model/C11IR.lean together with what each helper global is bound to, compared syntactically with "
+        "the model generator's script and executed in Lean on a canonical family of heaps over the class (all fields set / none / "
+        "each unset / every field pointing back directly, through a list, through a second instance; fresh and warm; armed, again, "
+        "str; two interleaved threads). T2: cases = heap (1..5 nodes quick / ..6 thorough: attrs instances of 1..3 classes, lists, tuples, dicts, atoms; "
         "random edges, so self-references and cycles through containers and other instances are the norm) x per class "
         "(1..3 inheritance layers, per-field repr in {True, False, callable(tag, recursing or not)} x init x set/unset, "
         "nesting of the class statement in functions/classes, plain runtime subclass (optionally overriding __repr__ around super's), repr_ns, str=True on leaf or base, "
@@ -43,12 +48,17 @@ RULE = ("cases = heap (1..5 nodes quick / ..6 thorough: attrs instances of 1..3 
         "A structured block enumerates cycle shapes x field kinds x every callable fault position first. Non-trivial = "
         "the rendering contains a cycle marker, a fault, an unset field, a callable or a thread scenario; distinct = distinct JSON case")
 ASSUMPTIONS = [
+    "T3: the parser harness/c11_ir.py (ast -> IR, strict: unknown forms stay `unknown`) and the description each instrumented callable carries of itself (`spec`, read back through the generated function's __globals__) are trusted; `execScript` gives the IR its meaning in Lean",
+    "a rendering that does not come back within 10 s is observed as `exc timeout` (non-termination) and its thread is cancelled",
     "class-level history (which classes of the chain rendered an instance earlier) and the `__name__` of the repr callables are harness-only variation: the model and the property are independent of both; the history is applied when a class is built (cache key contains it) so a replay in a fresh process sees the same history",
     "threading.local gives every thread its own already_repring: runtime behaviour, observed through forced schedules, not proved",
     "CPython's own recursion guard for list/tuple/dict repr (Py_ReprEnter/Leave) and object.__str__ -> repr are modelled as small functions and diff-tested here",
     "the real thread schedule is forced only up to 'all N threads are inside repr(root), in a field's callable, at the same time' (barrier; a timeout is recorded, not alarmed); finer interleavings are covered by the theorem over all schedules of the model's atomic steps",
     "heap mutation during a rendering is out of scope (the heap is immutable while repr runs)",
     "instrumented callables return str; atoms are objects whose repr is a bare token",
+]
+TRUSTED = [
+    "T3 for C11: harness/c11_ir.py (Python `ast` of the generated __repr__'s real source -> IR of Model/C11IR.lean; unknown forms are kept as `unknown`), the T1-extracted naming pattern of the helper globals, and `execScript` as the meaning of that IR",
 ]
 EXHAUSTIVE = {"quick": False, "thorough": False}
 BUDGET_S = {"quick": 24, "thorough": 400}
@@ -64,19 +74,45 @@ LEVEL_TEXT = (
     "C11_thread_finishes (any number of threads, every interleaving of atomic steps), C11_shared_state_breaks(+_keyerror) "
     "(decided witness schedules for one shared set), C11_shared_sequential_ok (the shared variant is correct without overlap), "
     "C11_model_meets_spec (stateful interleaved model = stateless ancestor-path rendering, for all well-formed cases). "
+    "T3: C11_script_correct (for every field list with distinct names, repr_ns and operand, executing the script the model "
+    "generator emits IS the model's attrsRepr around the model's f-string -- equal as resumptions, atomic step by atomic step), "
+    "C11_script_heap_correct, C11_script_model_meets_spec; the source text of every generated class's __repr__ is parsed "
+    "(harness/c11_ir.py, strict) and must equal the generator's script, so all theorems above are about the text that really "
+    "runs for that class; the observed script is also executed in Lean on a canonical operand family. "
     "Tied to /repo by differential correspondence on exact repr/str strings, repr after a faulted repr (Exception and "
     "BaseException faults, before/after rendering the value), the content of already_repring after each call, fresh and warm "
     "threads, and per-thread results of 2 and 3 threads forced by barriers to be inside repr(root) simultaneously. "
     "threading.local's per-thread semantics, CPython's container guards and object.__str__ are observed, not proved; "
-    "the generated source text is not translated (T3 not implemented for this property).")
+    "the ast-to-IR parser and the callables' self-descriptions are trusted.")
 
 BARRIER_TIMEOUT = 2.0
-JOIN_TIMEOUT = 15.0
+JOIN_TIMEOUT = 10.0
 
 # ------------------------------------------------------------------------------------------ instrumentation
 TL = threading.local()        # per-thread: mid (barrier), waited, sync
 ARMED = [False]
 ABORT = [False]               # faults raise a BaseException that is not an Exception (harness-only case key `abort`)
+
+
+GEN = [0]                     # observation generation: callables of a cancelled (runaway) observation see a stale one
+
+
+class HarnessCancel(BaseException):
+    """raised inside the instrumented callables of an observation that was given up (it did not terminate)"""
+
+
+def _cancel_threads(threads):
+    """stop runaway observation threads: stale generation for the callables + an async exception"""
+    import ctypes
+    GEN[0] += 1
+    for t in threads:
+        if t.is_alive() and t.ident is not None:
+            ctypes.pythonapi.PyThreadState_SetAsyncExc(ctypes.c_ulong(t.ident), ctypes.py_object(HarnessCancel))
+    for t in threads:
+        t.join(3.0)
+
+
+TIMEOUT_OUT = {"exc": {"k": "timeout"}}
 
 
 class UserAbort(BaseException):
@@ -146,6 +182,8 @@ def mk_callable(tag, recurse, tol=False, name_mode="field"):
     class is called `fmt` (closures of one factory); "wraps": functools.wraps wrappers of one function.  The
     rendering always carries the field's own tag, so a field rendered by another field's callable shows."""
     def repr_cb(v):
+        if getattr(TL, "gen", GEN[0]) != GEN[0]:
+            raise HarnessCancel()
         mid = getattr(TL, "mid", None)
         if mid is not None and not TL.waited:
             TL.waited = True
@@ -163,7 +201,7 @@ def mk_callable(tag, recurse, tol=False, name_mode="field"):
             # tolerant formatter: whatever rendering the value raises is swallowed
             try:
                 inner = repr(v)
-            except (RecursionError, MemoryError):
+            except (RecursionError, MemoryError, HarnessCancel):
                 raise          # never reached on a correct tree; keeps a runaway rendering linear instead of exponential
             except BaseException:  # noqa: BLE001
                 inner = "!"
@@ -182,6 +220,7 @@ def mk_callable(tag, recurse, tol=False, name_mode="field"):
     else:
         repr_cb.__name__ = "repr_" + tag
     repr_cb.fault = "no"
+    repr_cb.spec = {"tag": tag, "recurse": recurse, "tol": tol}     # read back by c11_ir (which callable a helper global holds)
     return repr_cb
 
 
@@ -445,6 +484,8 @@ def _attempt(thunk):
         if not isinstance(v, str):
             return {"exc": {"k": "other"}}
         return {"ok": {"s": v}}
+    except HarnessCancel:
+        raise
     except UserAbort as e:
         return {"exc": {"k": "user:" + e.token}}
     except BaseException as e:  # noqa: BLE001
@@ -465,42 +506,45 @@ def _residue(idmap):
         return [98]
 
 
-def _run_in_thread(fn):
-    box = {}
+def _sequential(root, idmap, warm):
+    """three calls in one fresh thread.  A call that does not come back within JOIN_TIMEOUT is observed as
+    `exc timeout` (the rendering does not terminate) and the thread is cancelled."""
+    out, box = {}, {}
 
     def body():
         try:
-            box["v"] = fn()
+            TL.gen = GEN[0]
+            TL.mid = None
+            if warm:
+                repr(_WARM)
+            ARMED[0] = True
+            try:
+                out["first"] = _attempt(lambda: repr(root))
+            finally:
+                ARMED[0] = False
+            out["res1"] = _residue(idmap)
+            out["again"] = _attempt(lambda: repr(root))
+            out["res2"] = _residue(idmap)
+            out["str"] = _attempt(lambda: str(root))
+            out["res3"] = _residue(idmap)
+        except HarnessCancel:
+            pass
         except BaseException as e:  # noqa: BLE001
             box["e"] = e
     t = threading.Thread(target=body, daemon=True)
     t.start()
     t.join(JOIN_TIMEOUT)
+    if t.is_alive():
+        _cancel_threads([t])
+        ARMED[0] = False
     if "e" in box:
         raise box["e"]
-    if "v" not in box:
-        raise RuntimeError("harness: observation thread did not finish")
-    return box["v"]
-
-
-def _sequential(root, idmap, warm):
-    def fn():
-        TL.mid = None
-        if warm:
-            repr(_WARM)
-        out = {}
-        ARMED[0] = True
-        try:
-            out["first"] = _attempt(lambda: repr(root))
-        finally:
-            ARMED[0] = False
-        out["res1"] = _residue(idmap)
-        out["again"] = _attempt(lambda: repr(root))
-        out["res2"] = _residue(idmap)
-        out["str"] = _attempt(lambda: str(root))
-        out["res3"] = _residue(idmap)
-        return out
-    return _run_in_thread(fn)
+    res = dict(out)
+    for k in ("first", "again", "str"):
+        res.setdefault(k, TIMEOUT_OUT)
+    for k in ("res1", "res2", "res3"):
+        res.setdefault(k, [])
+    return res
 
 
 def _concurrent(root, idmap, warm, n):
@@ -509,7 +553,8 @@ def _concurrent(root, idmap, warm, n):
     outs = [None] * n
     syncs = [None] * n
 
-    def worker(i):
+    def _worker(i):
+        TL.gen = GEN[0]
         TL.mid = None
         if warm:
             repr(_WARM)
@@ -526,6 +571,12 @@ def _concurrent(root, idmap, warm, n):
         outs[i] = {"out": o, "residue": _residue(idmap)}
         syncs[i] = TL.sync
 
+    def worker(i):
+        try:
+            _worker(i)
+        except HarnessCancel:
+            pass
+
     ts = [threading.Thread(target=worker, args=(i,), daemon=True) for i in range(n)]
     sys.setswitchinterval(1e-5)      # restored by observe()
     for t in ts:
@@ -533,8 +584,11 @@ def _concurrent(root, idmap, warm, n):
     for t in ts:
         t.join(JOIN_TIMEOUT)
     if any(o is None for o in outs):
-        # a stuck worker is a tool failure (exit 2), never a verdict
-        raise RuntimeError("harness: a worker thread of the concurrent scenario did not finish")
+        # a worker that does not come back: the rendering does not terminate -- observed as such, threads cancelled
+        _cancel_threads(ts)
+        for i in range(n):
+            if outs[i] is None:
+                outs[i] = {"out": TIMEOUT_OUT, "residue": []}
     sync = "met" if all(s == "met" for s in syncs) else ("nocallable" if all(s == "nocallable" for s in syncs) else "timeout")
     return outs, sync
 
@@ -545,7 +599,34 @@ def _build_failed(case, e):
             "threads": [{"out": out, "residue": []} for _ in range(case["threads"])], "sync": "build-failed"}
 
 
+def make_script_case(cs):
+    """T3: the class alone; the observation is the parsed source of the generated `__repr__` its instances run"""
+    return {"kind": "script", "cls": cs}
+
+
+def is_script(case):
+    return case.get("kind") == "script"
+
+
+def observe_script(case):
+    cs = case["cls"]
+    try:
+        cls, cbs = build_class(cs)
+    except RuntimeError as e:
+        if str(e).startswith("harness:"):
+            raise
+        return {"script": {"body": [{"unknown": {"src": "class could not be built: " + common.exc_kind(e)}}], "globs": []}}
+    except Exception as e:  # noqa: BLE001
+        return {"script": {"body": [{"unknown": {"src": "class could not be built: " + common.exc_kind(e)}}], "globs": []}}
+    for f in all_fields(cs):
+        if isinstance(f["repr"], dict):
+            cbs[f["name"]].fault = f["repr"]["call"]["fault"]
+    return {"script": c11_ir.parse_repr(cls)}
+
+
 def observe(case):
+    if is_script(case):
+        return observe_script(case)
     sw = sys.getswitchinterval()
     try:
         ABORT[0] = bool(case.get("abort", False))
@@ -821,6 +902,13 @@ def gen_cases(tier, rng):
     for _ in range(n_random):
         ncls = rng.choice([1, 1, 2, 2, 3])
         classes = [rand_class(rng, i) for i in range(ncls)]
+        # T3: the text of the generated __repr__ of every class (one of its callables sometimes armed with a fault)
+        for cs in classes:
+            one = {"classes": [copy.deepcopy(cs)], "nodes": []}
+            sl = callable_slots(one)
+            if sl and rng.random() < 0.5:
+                one = with_fault(one, rng.choice(sl), rng.choice(["pre", "post"]))
+            yield make_script_case(one["classes"][0])
         # several heaps / faults / scenarios over one set of classes (class creation dominates the cost)
         for _ in range(5):
             n = rng.choice([1, 2, 3, 3, 4, 4, 5, 5] + ([6] if max_nodes >= 6 else []))
@@ -840,6 +928,8 @@ def gen_cases(tier, rng):
 
 # ------------------------------------------------------------------------------------------ reporting helpers
 def nontrivial(case, model):
+    if is_script(case):
+        return bool(all_fields(case["cls"]))
     if case["threads"] > 0:
         return True
     txt = json.dumps(model) if model is not None else ""
@@ -856,7 +946,21 @@ def _root_cls(case):
     return case["heap"]["classes"][nd["inst"]["cls"]] if _kind(nd) == "inst" else {}
 
 
+def _count_unknown(x):
+    if isinstance(x, dict):
+        return ("unknown" in x) + sum(_count_unknown(v) for v in x.values())
+    if isinstance(x, list):
+        return sum(_count_unknown(v) for v in x)
+    return 0
+
+
 def dist(case, obs):
+    if is_script(case):
+        sc = obs.get("script", {}) if isinstance(obs, dict) else {}
+        cs = case["cls"]
+        return {"kind": "script", "script_fields": len(all_fields(cs)), "script_helpers": len(sc.get("globs", [])),
+                "script_unknown": _count_unknown(sc.get("body", [])), "script_ns": cs["reprNs"] is not None,
+                "script_owner": "inherited" if (cs.get("cfg", {}).get("plainSub") or cs["ovr"]) else "own"}
     heap = case["heap"]
     kinds = [_kind(n) for n in heap["nodes"]]
     first = obs.get("first", {}) if isinstance(obs, dict) else {}
@@ -913,6 +1017,12 @@ def _refs(nd):
 
 
 def shrink(case):
+    if is_script(case):
+        for c in shrink(mk_case({"classes": [case["cls"]], "nodes": [{"atom": {"s": "0"}}]})):
+            cs = c["heap"]["classes"][0] if c["heap"]["classes"] else None
+            if cs is not None and cs != case["cls"]:
+                yield make_script_case(cs)
+        return
     heap = case["heap"]
     if case["threads"]:
         yield dict(case, threads=0, sched=[])
@@ -989,6 +1099,14 @@ def shrink(case):
 
 
 def neighbours(case, rng):
+    if is_script(case):
+        # the script differs from the model's: look for a heap over that class on which the behaviour differs
+        for _ in range(40):
+            n = rng.choice([1, 2, 3, 4])
+            heap = rand_heap(rng, n, [copy.deepcopy(case["cls"])])
+            yield mk_case(heap, 0, rng.random() < 0.5, rng.choice([0, 0, 2]), [rng.randrange(6) for _ in range(6)],
+                          abort=rng.random() < 0.3)
+        return
     heap = case["heap"]
     yield dict(case, warm=not case["warm"])
     yield dict(case, abort=not case.get("abort", False))
